@@ -350,6 +350,18 @@ class C13:
             groups.append(g)
         # bodies just above 10 000 000 bytes (the crate's documented default message size limit) and above 2^24:
         # decoded by the implementation only (the model is not run on 20 MB of hex); oracle = length and CRC-32
+        from . import srcdict
+        lits = [v + d for v in srcdict.load()["big"] for d in (-1, 0, 1, 100_000)]
+        for j, size in enumerate(lits):
+            data = bytes(size)
+            kind = ("gzip", "zlib", "raw")[j % 3]
+            d = raw_deflate(data, 6)
+            enc = d if kind == "raw" else (zlib_wrap(d, data) if kind == "zlib" else gzip_wrap(d, data)[0])
+            hsr = [(b"Content-Encoding", TOKEN_OF[kind])]
+            g = Group("lit%d" % j, "huge-literal", {"headers": [[a.hex(), b.hex()] for a, b in hsr], "data": None, "data_len": len(data), "data_crc": zlib.crc32(data),
+                                                  "layers": ["%s of %d zero bytes (a literal of the source +- 1)" % (kind, size)]})
+            g.add("decode", "DECODE %d %s %s" % (tree, hdrs_field(hsr), hx(enc)), {"nocmp": True})
+            groups.append(g)
         for j, (kind, level) in enumerate([("gzip", 6), ("zlib", 9), ("raw", 9), ("gzip", 9)]):
             data = bytes(8_000_000) if j < 3 else bytes(16_877_216)
             d = raw_deflate(data, level)
@@ -611,7 +623,8 @@ class C15:
                 outer, _ = encode_layer(rng, "gzip", enc[:c])
                 g.add("truncated-inner", "DECODE %d %s %s" % (tree, hdrs_field([(b"Content-Encoding", tok + b", gzip")]), hx(outer)), {"cut": c})
             groups.append(g)
-        for k3, size in enumerate([16_777_216, 16_877_216] if tier == "quick" else [8_388_608, 16_777_216, 16_877_216, 33_554_432]):
+        from . import srcdict
+        for k3, size in enumerate(sorted(set(([16_777_216, 16_877_216] if tier == "quick" else [8_388_608, 16_777_216, 16_877_216, 33_554_432]) + [v + d for v in srcdict.load()["big"] for d in (0, 100_000)]))):
             content = bytes(size)
             for kind in ("gzip", "zlib"):
                 d = raw_deflate(content, 6)
